@@ -43,6 +43,13 @@ def run_case(case, ctx):
     return opsem.compare(ID, case, ctx, CFGS, strata_fn=_strata)
 
 
+
+def extra_cases(tier, shard, nshards, ctx):
+    if tier != "thorough":
+        return
+    yield from opsem.corpus484(shard, nshards, ctx)
+
+
 def shrink(case):
     for c in gen.shrink_candidates(case):
         yield gen.renumber(c)
